@@ -158,6 +158,7 @@ func extremeLong(rng *rand.Rand) int64 {
 const canaryByte = 0xA5
 
 func driveC05(c *driverCtx) error {
+	driveDestShapes(c)
 	kinds := goKinds()
 	stypes := schemaTypes()
 	built, total := 0, 0
@@ -254,4 +255,169 @@ func driveC05(c *driverCtx) error {
 	c.extra["pairs"] = total
 	c.extra["pairs_built"] = built
 	return nil
+}
+
+// ---------------------------------------------------------------------------
+// destination shapes: what the caller hands to ReadFile / Schema.Codec as `out`, and struct shapes whose
+// fields the schema can only reach through an embedded struct. Either the construction fails, or every store
+// stays inside the destination: the bytes around it and the fields the schema does not name are compared
+// before / after (TLA+ cannot look at Go memory), the content of the destination goes to the judge.
+
+type destRow struct {
+	A int64  `json:"a"`
+	S string `json:"s"`
+	B int64  `json:"b"`
+}
+
+type destMeta struct {
+	ID  int64  `json:"id"`
+	Tag string `json:"tag"`
+}
+
+type destEmbedded struct {
+	Seq   int64 `json:"seq"`
+	Count int64 `json:"count"`
+	destMeta
+	Tail int64 `json:"tail"`
+}
+
+type destEmbeddedExported struct {
+	Seq int64 `json:"seq"`
+	DestMetaX
+	Tail int64 `json:"tail"`
+}
+
+type DestMetaX struct {
+	ID  int64  `json:"id"`
+	Tag string `json:"tag"`
+}
+
+const destGuard = 128
+
+// guardedValue allocates a value of type t between two guard areas filled with a pattern (one allocation, so the
+// guards really are the neighbouring memory) and returns the value and a function that checks the guards.
+func guardedValue(t reflect.Type) (reflect.Value, func() bool) {
+	h := reflect.New(reflect.StructOf([]reflect.StructField{
+		{Name: "Pre", Type: reflect.TypeOf([destGuard]byte{})},
+		{Name: "V", Type: t},
+		{Name: "Post", Type: reflect.TypeOf([destGuard]byte{})},
+	})).Elem()
+	for _, g := range []string{"Pre", "Post"} {
+		f := h.FieldByName(g)
+		for i := 0; i < f.Len(); i++ {
+			f.Index(i).SetUint(0xC3)
+		}
+	}
+	return h.Field(1), func() bool {
+		for _, g := range []string{"Pre", "Post"} {
+			f := h.FieldByName(g)
+			for i := 0; i < f.Len(); i++ {
+				if f.Index(i).Uint() != 0xC3 {
+					return false
+				}
+			}
+		}
+		return true
+	}
+}
+
+func driveDestShapes(c *driverCtx) {
+	const sj = `{"type":"record","name":"Row","fields":[{"name":"a","type":"long"},{"name":"s","type":"string"},{"name":"b","type":"long"}]}`
+	sn, _ := schemaNodeFromJSON([]byte(sj))
+	rowT := reflect.TypeOf(destRow{})
+	var raw []byte
+	raw = appendVar(raw, 1234567)
+	raw = appendVar(raw, 5)
+	raw = append(raw, "hello"...)
+	raw = appendVar(raw, -99)
+	emit := func(key string, ev map[string]any) {
+		ev["op"], ev["schema"], ev["bytes"] = "dest_decode", sn, byteList(raw)
+		c.rec.NewCase()
+		c.rec.Emit("C05|dest|"+key, ev)
+	}
+	// (a) ReadFile with out = pointer chains of depth 1..3 to the row, and to things that are not structs
+	for depth := 1; depth <= 3; depth++ {
+		for ci, codec := range codecs3 {
+			t := rowT
+			for i := 1; i < depth; i++ {
+				t = reflect.PointerTo(t)
+			}
+			dest, guardsOK := guardedValue(t)
+			file := buildContainer([]byte(sj), codec, true, []byte("0123456789abcdef"), [][2]any{{1, raw}})
+			var err error
+			calls := 0
+			p := catch(func() {
+				err = avro.ReadFile(makeReader(readerKinds[ci], file), dest.Addr().Interface(), func(val unsafe.Pointer, rb *avro.ResourceBank) error {
+					calls++
+					return nil
+				})
+			})
+			// follow the pointers of the destination down to the row (or nil)
+			v := dest
+			for v.Kind() == reflect.Pointer && !v.IsNil() {
+				v = v.Elem()
+			}
+			val := node{"k": "nil"}
+			if v.Kind() == reflect.Struct {
+				val = safeProject(v)
+			}
+			emit(fmt.Sprintf("readfile|ptr-depth%d|%s", depth, codec), map[string]any{"shape": fmt.Sprintf("ptr-depth%d", depth),
+				"built": err == nil && p == "", "buildpanic": p, "err": errString(err), "rout": map[bool]string{true: "ok", false: "err"}[err == nil && calls == 1],
+				"canary": guardsOK(), "untouched": true, "value": val, "judgeValue": depth == 1})
+		}
+	}
+	for _, out := range []any{new(int64), new([]destRow), new(map[string]destRow), new(string), new([3]destRow), int64(0), []destRow{}, "x"} {
+		file := buildContainer([]byte(sj), "null", true, []byte("0123456789abcdef"), [][2]any{{1, raw}})
+		var err error
+		p := catch(func() {
+			err = avro.ReadFile(makeReader("bytes", file), out, func(val unsafe.Pointer, rb *avro.ResourceBank) error { return nil })
+		})
+		emit("readfile|not-a-struct|"+reflect.TypeOf(out).String(), map[string]any{"shape": "not-a-struct", "built": err == nil && p == "", "buildpanic": p, "err": errString(err),
+			"rout": "ok", "canary": err != nil, "untouched": true, "value": node{"k": "nil"}, "judgeValue": false})
+	}
+	// (b) fields the schema could only reach through an embedded struct: either they are not matched at all or
+	// they are stored where they live; the fields the schema does not name keep their content
+	const ej = `{"type":"record","name":"E","fields":[{"name":"id","type":"long"},{"name":"tag","type":"string"}]}`
+	en, _ := schemaNodeFromJSON([]byte(ej))
+	var eraw []byte
+	eraw = appendVar(eraw, 4242)
+	eraw = appendVar(eraw, 3)
+	eraw = append(eraw, "tag"...)
+	for _, t := range []reflect.Type{reflect.TypeOf(destEmbedded{}), reflect.TypeOf(destEmbeddedExported{})} {
+		sch, err := avro.SchemaFromString(ej)
+		if err != nil {
+			continue
+		}
+		var codec avro.Codec
+		bp := catch(func() { codec, err = sch.Codec(reflect.New(t).Interface()) })
+		ev := map[string]any{"shape": "embedded", "built": bp == "" && err == nil, "buildpanic": bp, "err": errString(err), "rout": "", "canary": true, "untouched": true,
+			"value": node{"k": "nil"}, "judgeValue": false}
+		if bp == "" && err == nil {
+			dest, guardsOK := guardedValue(t)
+			const pat = int64(0x5A5A5A5A5A5A5A5A)
+			named := []string{"Seq", "Count", "Tail"}
+			for _, n := range named {
+				if f := dest.FieldByName(n); f.IsValid() {
+					f.SetInt(pat)
+				}
+			}
+			r := avro.NewReadBuf(append(append([]byte{}, eraw...), 0xEE, 0xEE))
+			rp := catch(func() { err = codec.Read(r, dest.Addr().UnsafePointer()) })
+			untouched := true
+			for _, n := range named {
+				if f := dest.FieldByName(n); f.IsValid() && f.Int() != pat {
+					untouched = false
+				}
+			}
+			ev["rout"] = map[bool]string{true: "ok", false: "err"}[err == nil]
+			if rp != "" {
+				ev["rout"] = "panic"
+			}
+			ev["canary"], ev["untouched"] = guardsOK(), untouched
+			r.ExtractResourceBank().Close()
+		}
+		ev["op"], ev["schema"], ev["bytes"] = "dest_decode", en, byteList(eraw)
+		c.rec.NewCase()
+		c.rec.Emit("C05|dest|embedded|"+t.Name(), ev)
+	}
 }
